@@ -433,11 +433,9 @@ as numpy.loadtxt will not work as expected."""
                   dtype=[(np.str_('<;'), '<i8'), (np.str_(';<'), '<i8')])
 
         """
-        return numpy.ndarray(
-            shape=self.shape,
-            dtype=[(key, self.dtype) for key in self.keys],
-            buffer=self.data,
-        )
+        # a base-class view shares memory *and* strides, so it is also correct
+        # for non-contiguous polynomials such as ``poly.T``
+        return numpy.ndarray.view(self, numpy.ndarray)
 
     def isconstant(self) -> bool:
         """
